@@ -259,6 +259,78 @@ def _pdu_catalogue(k: int) -> t.Tuple[str, bytes]:
     return kind, rpce.build_fault(0x1C010000 + v, ctx_id=v, stub=stub[: (v % 3) * 8])
 
 
+def run_libenc(case) -> dict:
+    """["libenc", flavour, k]: a (misbehaving but library-built) peer sends a PDU produced by the library's *own* encoder with
+    non-default header values - data representation flags, version_minor, call ids, reserved flag bits; the client decodes
+    it; decode + encode must give the same bytes and the same field values the encoder was given."""
+    import dpapi_ng._rpc as rpc
+    from dpapi_ng._rpc._pdu import PDU
+
+    _, fl, k = case
+    rng = random.Random(k)
+    drep = rpc.DataRep(byte_order=rpc.IntegerRep(k % 2), character=rpc.CharacterRep((k // 2) % 2), floating_point=rpc.FloatingPointRep((k // 4) % 4))
+    ptype = [rpc.PacketType.BIND_ACK, rpc.PacketType.ALTER_CONTEXT_RESP, rpc.PacketType.RESPONSE, rpc.PacketType.FAULT, rpc.PacketType.BIND_NAK][k % 5]
+    trailer = None
+    if k % 3 == 0 and ptype != rpc.PacketType.BIND_NAK:
+        trailer = rpc.SecTrailer(type=rpc.SecurityProvider.RPC_C_AUTHN_WINNT, level=rpc.AuthenticationLevel.RPC_C_AUTHN_LEVEL_PKT_PRIVACY, pad_length=k % 16,
+                                 context_id=k, auth_value=bytes(range(1 + k % 40)))
+    hdr = rpc.PDUHeader(version=5, version_minor=k % 2, packet_type=ptype, packet_flags=rpc.PacketFlags(3 | (4 if k % 7 == 0 else 0)), data_rep=drep, frag_len=0,
+                        auth_len=len(trailer.auth_value) if trailer else 0, call_id=(1, 2, 0xFFFFFFFF, 0x01020304)[k % 4])
+    if ptype in (rpc.PacketType.BIND_ACK, rpc.PacketType.ALTER_CONTEXT_RESP):
+        cls = rpc.BindAck if ptype == rpc.PacketType.BIND_ACK else rpc.AlterContextResponse
+        res = [rpc.ContextResult(rpc.ContextResultCode(j % 4), j, uuid.UUID(int=j * 977), j) for j in range(k % 5)]
+        obj = cls(header=hdr, sec_trailer=trailer, max_xmit_frag=4280 + k, max_recv_frag=4280, assoc_group=k * 31, sec_addr="9" * (k % 6), results=res)
+    elif ptype == rpc.PacketType.RESPONSE:
+        stub = bytes(rng.randrange(256) for _ in range((k * 4) % 64))
+        obj = rpc.Response(header=hdr, sec_trailer=trailer, alloc_hint=len(stub), context_id=k % 9, cancel_count=k % 3, stub_data=stub)
+    elif ptype == rpc.PacketType.FAULT:
+        obj = rpc.Fault(header=hdr, sec_trailer=trailer, alloc_hint=0, context_id=k % 9, cancel_count=0, status=0x1C010000 + k, flags=rpc.FaultFlags(k % 2), stub_data=b"")
+    else:
+        obj = rpc.BindNak(header=hdr, sec_trailer=None, reject_reason=k % 11, versions=[(5, j) for j in range(k % 3)])
+    raw = bytearray(obj.pack())
+    raw[8:10] = len(raw).to_bytes(2, "little")
+    raw = bytes(raw)
+    world = W.World(k)
+    world.add_route(DC, 135, peers.ScriptedPeer([[("send", raw)]]))
+    ctxs = _contexts(1, 1)
+
+    def sync_work():
+        with rpc.create_rpc_connection(DC) as c:
+            return c.bind(ctxs)
+
+    async def async_work():
+        c = await rpc.async_create_rpc_connection(DC)
+        async with c:
+            return await c.bind(ctxs)
+
+    with world.installed():
+        with common.LineBudget(LINE_A + LINE_B * len(raw)):
+            out = drive.classify(sync_work) if fl == "sync" else drive.classify(lambda: drive.run_async(world, async_work))
+    viol = None
+    label = f"{ptype.name} drep=({int(drep.byte_order)},{int(drep.character)},{int(drep.floating_point)}) minor={hdr.version_minor}"
+    try:
+        back = PDU.unpack(raw)
+        again = bytearray(back.pack())
+        again[8:10] = len(again).to_bytes(2, "little")
+        if bytes(again) != raw:
+            viol = common.violation("C12", "codec", fl, "re-encode-differs", "library-encoded", "", f"decode+encode of a library-encoded {label} changes the bytes; case={case}")
+        else:
+            h2 = back.header
+            exp = (hdr.version_minor, int(hdr.packet_type), int(hdr.packet_flags), len(raw), hdr.auth_len, hdr.call_id, drep)
+            got = (h2.version_minor, int(h2.packet_type), int(h2.packet_flags), h2.frag_len, h2.auth_len, h2.call_id, h2.data_rep)
+            if exp != got:
+                viol = common.violation("C12", "codec", fl, "header-fields", "library-encoded", "", f"{label}: encoder was given {exp}, decoder returned {got}")
+    except Exception as e:  # noqa: BLE001
+        viol = common.violation("C12", "codec", fl, "well-formed-pdu-not-decoded", "library-encoded", "", f"library cannot decode its own {label}: {e!r}")
+    if not viol and out.kind in ("budget", "spin"):
+        viol = common.violation("C12", "termination", fl, out.kind, drive.exc_sig(out)[1], "library-encoded", label)
+    if not viol and ptype == rpc.PacketType.BIND_ACK and out.kind != "ok":
+        viol = common.violation("C12", "conversation", fl, drive.exc_sig(out)[0], drive.exc_sig(out)[1], "library-encoded",
+                                f"client did not accept a library-encoded {label}: {out.exc!r}")
+    return {"viol": viol, "digest": world.digest() + out.brief(), "key": common.key_hash(case), "fired": {}, "probes": {"libenc": 1, "libenc_drep_be": int(drep.byte_order == 0)},
+            "vtime_ns": world.stats.get("vtime_ns", 0)}
+
+
 def run_types(case) -> dict:
     """["types", flavour, k]: a scripted peer answers the bind with PDU variant k; the client runs the matching decoder."""
     import dpapi_ng._rpc as rpc
@@ -418,7 +490,9 @@ class C12(common.Check):
             "BITMASK / PCONTEXT / HEADER2 / unknown commands, reply lengths; (epm) ept_map conversations with 0..6 towers whose floor payloads "
             "sweep every tower-length residue mod 8, encoded by the reference and by LibDC; (types) a scripted peer sends every PDU type in "
             "well-formed variants (object UUID, auth values 0..64, 0..6 results, 0..8 contexts, bind_nak versions) to the client; every message "
-            "is checked by the receive-side monitor (library decode == independent decode, re-encode == bytes). (tear) one message of a full "
+            "is checked by the receive-side monitor (library decode == independent decode from a receive buffer that is reused afterwards, "
+            "re-encode == bytes); (libenc) PDUs built by the library's own encoders with non-default header values (data representation "
+            "flags, minor version, call ids) sent to the client. (tear) one message of a full "
             "EPM+GKDI conversation is garbled in flight (towards LibDC or towards the client: truncation with consistent frag_len, bit flips, "
             "NDR count rewrites up to 2^64-1, growth) under a traced-line budget. Non-trivial = every case; distinct = distinct tuple.")
     components = {"client": "real (all client-direction codecs, RpcClient)", "LibDC": "real codecs in the server role (Bind/AlterContext/Request/"
@@ -426,7 +500,7 @@ class C12(common.Check):
                   "reference server / monitor": "model (ref.rpce)", "security context": "stub", "transport": "simulated, with in-flight adversary"}
     assumptions = ["decode(encode(x)) = x is claimed only for messages that cross the wire between the three parties (values no party sends are outside the technique)",
                    "NDR referent ids are free: NDR64 stubs are compared through the independent decoder"]
-    required_fired = ("codec_lib", "codec_ref", "reqtear", "replytear", "tear_vt") + tuple("tower_len_mod8_%d" % i for i in range(8)) + tuple("vt_kind_%d" % i for i in range(9))
+    required_fired = ("codec_lib", "codec_ref", "reqtear", "replytear", "tear_vt", "libenc", "libenc_drep_be") + tuple("tower_len_mod8_%d" % i for i in range(8)) + tuple("vt_kind_%d" % i for i in range(9))
 
     def cases(self, tier, seed):
         out = []
@@ -451,6 +525,8 @@ class C12(common.Check):
                     out.append(["epm", codec, "sync" if k % 2 else "async", k, status])
         for k in range(0, 11 * (30 if tier == "quick" else 70)):
             out.append(["types", "sync" if k % 2 else "async", k])
+        for k in range(0, 400 if tier == "quick" else 4000):
+            out.append(["libenc", "sync" if k % 2 else "async", k])
         n_tear = 1500 if tier == "quick" else 80000
         for i in range(n_tear):
             out.append(["tear", "to-libdc" if i % 2 else "to-client", rng.choice(("sync", "async")), rng.choice(("epm", "gkdi", "vt") if i % 2 else ("epm", "gkdi")), rng.getrandbits(30)])
@@ -458,7 +534,7 @@ class C12(common.Check):
 
     def run_case(self, case):
         try:
-            return {"conv": run_conv, "epm": run_epm, "types": run_types, "tear": run_tear}[case[0]](case)
+            return {"conv": run_conv, "epm": run_epm, "types": run_types, "tear": run_tear, "libenc": run_libenc}[case[0]](case)
         except wiremon.MonitorHarnessError as e:
             raise common.HarnessError(str(e))
 
@@ -477,7 +553,7 @@ class C12(common.Check):
     def sample_repr(self, case, res):
         names = {"conv": ("kind", "codec", "flavour", "n_contexts", "n_transfer_syntaxes", "sec_addr_len", "token_size", "stub_len", "vt_variant", "reply_len"),
                  "epm": ("kind", "codec", "flavour", "tower_variant", "status"), "types": ("kind", "flavour", "pdu_variant"),
-                 "tear": ("kind", "direction", "flavour", "conversation", "seed")}[case[0]]
+                 "tear": ("kind", "direction", "flavour", "conversation", "seed"), "libenc": ("kind", "flavour", "variant")}[case[0]]
         return dict(zip(names, case))
 
 
